@@ -2005,6 +2005,9 @@ func objreg(c px.Context, t *gty, ve sx.Sexp, withParent bool) core.Result {
 		}
 		return res(out, "FAIL "+cl+" "+pt.String()+" rejects "+out)
 	}
+	if d := declaredInitHashBack(c, t, pt, w, gv); d != "" {
+		return res(out, "FAIL "+d)
+	}
 	return res(out, "ok")
 }
 
